@@ -45,7 +45,7 @@ FINDER_BOUNDS = {
     'find_relative_offsets': 'every selection x every container over 9 positions x 4 offset modes; every cursor pair against every container, also through textselection() and absolute_offset() on 6 bound and unbound selections of a resource (with extreme cursors); relative_begin / relative_end of every selection in every container; Offset::len of every offset tried',
     'find_subselectors': 'every sequence of 2-3 of 20 simple targets (7 text selections of two resources, annotations without text, with their whole text and with a sub-part of it, resources, dataset, key, data) x Multi/Composite/Directional',
     'find_text_ops': 'every sub-range of 9 texts (<= 8 codepoints of 1-4 bytes, two with characters whose lower-casing changes their length, one with the three forms of the Greek sigma), 11 needles/delimiters, one pattern with an optional capture group, 3 trim sets; find_text, find_text_nocase, split_text, trim_text, find_text_regex (literal patterns) and find_text_sequence (10 fragment lists) vs plain string operations; AnnotationStore::find_text over 3 resources in 3 orders',
-    'find_query_semantics': '9 constraints over a 12-annotation store: every ordered pair as a conjunction, every pair as a disjunction, LIMIT 1-3; 3 outer constraints x an (OPTIONAL) sub-query without results; oracle: the single-constraint results; 11 typed value literals as STAMQL text against a scan with the corresponding DataOperator over two datasets with coinciding handle numbers; SELECT KEY / keys() across datasets; both orders of DATA and ANNOTATION in SELECT DATA; 5 ADD queries against the value the direct call stores; SELECT RESOURCE with 4 data constraints (on the text / AS METADATA): every single constraint against a scan, all 16 ordered conjunctions against the intersection',
+    'find_query_semantics': '9 constraints over a 12-annotation store: every ordered pair as a conjunction, every pair as a disjunction, LIMIT 1-3; 3 outer constraints x an (OPTIONAL) sub-query without results; oracle: the single-constraint results; 11 typed value literals as STAMQL text against a scan with the corresponding DataOperator over two datasets with coinciding handle numbers; SELECT KEY / keys() across datasets; both orders of DATA and ANNOTATION in SELECT DATA; 5 ADD queries against the value the direct call stores; SELECT RESOURCE with 4 data constraints (on the text / AS METADATA): every single constraint against a scan, all 16 ordered conjunctions against the intersection; 6 result types x 10 constraints x 10 constraints in a later position: a non-empty intersection must not come back empty',
     'find_data_search': '13 values of five types under two keys x 22 operators: DataValue::test vs the documented semantics; insertion of every value twice (dedup by exact value); find_data by key (also one that does not exist) / value / both vs a full scan; keys()/data() lookups at store level over two datasets with coinciding handle numbers against a scan',
     'find_annotate_failures': '13 failing annotate() calls (missing / unresolvable / out-of-range / nested targets, bad data references, duplicate ids) on a small store; observable state compared before and after',
     'find_include_cycle': '9 sets of files that @include each other or themselves (stores: pairs with and without a working directory, self-include, a cycle of three, a double include; stand-off resource files without text; dataset files), each loaded in a child process',
